@@ -126,14 +126,14 @@ Proof. intros d0 lo bl st bl' st' [_ [_ [_ [A _]]]]; exact A. Qed.
 Lemma sol_in_incl : forall sol d d', sol_in sol d -> incl d d' -> sol_in sol d'.
 Proof. intros sol d d' H Hi v x Hv a Ha; apply Hi; eapply H; eauto. Qed.
 
-Lemma m_term_ok : forall t insert sol bl st st' bl' r d0 lo,
-  m_term insert sol t bl st = (st', bl', r) -> pre d0 lo bl st ->
+Lemma m_term_ok : forall kwa t pred insert sol bl st st' bl' r d0 lo,
+  m_term kwa pred insert sol t bl st = (st', bl', r) -> pre d0 lo bl st ->
   post d0 lo bl st bl' st' /\
   forall ot, r = IOut ot ->
-    (forall pred bnf, agrees bnf bl' -> s_term_gen a_word pred sol bnf t = ot) /\
+    (forall bnf, agrees bnf bl' -> s_term_gen kwa pred sol bnf t = ot) /\
     (sol_in sol (i_dict st) -> forall x, ot = Some x -> incl (atoms x) (i_dict st')).
 Proof.
-  induction t as [v|c|l| |ts IHs tp IHp to IHo]; intros insert sol bl st st' bl' r d0 lo H Hpre; simpl in H.
+  intros kwa; induction t as [v|c|l| |ts IHs tp IHp to IHo]; intros pred insert sol bl st st' bl' r d0 lo H Hpre; simpl in H.
   - inversion H; subst. split; [apply post_refl; auto|].
     intros ot Ho; inversion Ho; subst. split; auto. intros Hs x Hx; eapply Hs; eauto.
   - inversion H; subst. destruct (encode_post d0 lo bl' st c Hpre) as [Hp Hc]. split; auto.
@@ -142,7 +142,7 @@ Proof.
     + destruct (lookup l bl) as [b|] eqn:El.
       * inversion H; subst. split; [apply post_refl; auto|].
         intros ot Ho; inversion Ho; subst. split.
-        -- intros pred bnf Ha; simpl. f_equal. apply Ha; auto.
+        -- intros bnf Ha; simpl. f_equal. apply Ha; auto.
         -- intros _ x Hx; inversion Hx; subst. destruct Hpre as [P1 [P2 [P3 P4]]].
            destruct (P3 _ _ El) as [k [Ek _]]. rewrite Ek. simpl. intros a [<-|[]]. rewrite <- Ek. eapply P4; eauto.
       * destruct (allocate_blank_node l st) as [[b st1]|] eqn:Ea.
@@ -163,52 +163,52 @@ Proof.
                + inversion Hl; subst; right; simpl; auto.
                + left; eapply P4; eauto. }
            split; auto. intros ot Ho; inversion Ho; subst. split.
-           ++ intros pred bnf Ha; simpl. f_equal. apply Ha. apply lookup_cons_eq.
+           ++ intros bnf Ha; simpl. f_equal. apply Ha. apply lookup_cons_eq.
            ++ intros _ x Hx; inversion Hx; subst. simpl. intros a [<-|[]]. rewrite Dk; apply in_app_iff; right; simpl; auto.
         -- inversion H; subst. split; [apply post_refl; auto | intros ot Ho; discriminate].
     + inversion H; subst. split; [apply post_refl; auto | intros ot Ho; discriminate].
-  - inversion H; subst. destruct (encode_post d0 lo bl' st a_word Hpre) as [Hp Hc]. split; auto.
+  - inversion H; subst. destruct (encode_post d0 lo bl' st (if pred then kwa else a_word) Hpre) as [Hp Hc]. split; auto.
     intros ot Ho; inversion Ho; subst. split.
-    + intros pred bnf _. simpl. destruct pred; reflexivity.
+    + intros bnf _. reflexivity.
     + intros _ x Hx; inversion Hx; subst; auto.
   - (* quoted triple *)
-    destruct (m_term insert sol ts bl st) as [[st1 bl1] r1] eqn:E1.
-    destruct (IHs _ _ _ _ _ _ _ d0 lo E1 Hpre) as [Po1 R1].
+    destruct (m_term kwa false insert sol ts bl st) as [[st1 bl1] r1] eqn:E1.
+    destruct (IHs _ _ _ _ _ _ _ _ d0 lo E1 Hpre) as [Po1 R1].
     pose proof (pre_post _ _ _ _ _ _ Hpre Po1) as Pre1.
     destruct r1 as [e|[s1|]].
     { inversion H; subst. split; auto. intros ot Ho; discriminate. }
     2:{ inversion H; subst. split; auto. intros ot Ho; inversion Ho; subst.
         destruct (R1 _ eq_refl) as [A1 _]. split; [|intros _ x Hx; discriminate].
-        intros pred bnf Ha. simpl. rewrite (A1 false bnf Ha). reflexivity. }
+        intros bnf Ha. simpl. rewrite (A1 bnf Ha). reflexivity. }
     destruct (R1 _ eq_refl) as [A1 I1].
-    destruct (m_term insert sol tp bl1 st1) as [[st2 bl2] r2] eqn:E2.
-    destruct (IHp _ _ _ _ _ _ _ d0 lo E2 Pre1) as [Po2 R2].
+    destruct (m_term kwa true insert sol tp bl1 st1) as [[st2 bl2] r2] eqn:E2.
+    destruct (IHp _ _ _ _ _ _ _ _ d0 lo E2 Pre1) as [Po2 R2].
     pose proof (pre_post _ _ _ _ _ _ Pre1 Po2) as Pre2.
     pose proof (post_trans _ _ _ _ _ _ _ _ Po1 Po2) as Po12.
     destruct r2 as [e|[p1|]].
     { inversion H; subst. split; auto. intros ot Ho; discriminate. }
     2:{ inversion H; subst. split; auto. intros ot Ho; inversion Ho; subst.
         destruct (R2 _ eq_refl) as [A2 _]. split; [|intros _ x Hx; discriminate].
-        intros pred bnf Ha. simpl.
-        rewrite (A1 false bnf (agrees_extends _ _ _ (post_ext _ _ _ _ _ _ Po2) Ha)), (A2 true bnf Ha). reflexivity. }
+        intros bnf Ha. simpl.
+        rewrite (A1 bnf (agrees_extends _ _ _ (post_ext _ _ _ _ _ _ Po2) Ha)), (A2 bnf Ha). reflexivity. }
     destruct (R2 _ eq_refl) as [A2 I2].
-    destruct (m_term insert sol to bl2 st2) as [[st3 bl3] r3] eqn:E3.
-    destruct (IHo _ _ _ _ _ _ _ d0 lo E3 Pre2) as [Po3 R3].
+    destruct (m_term kwa false insert sol to bl2 st2) as [[st3 bl3] r3] eqn:E3.
+    destruct (IHo _ _ _ _ _ _ _ _ d0 lo E3 Pre2) as [Po3 R3].
     pose proof (post_trans _ _ _ _ _ _ _ _ Po12 Po3) as Po123.
     destruct r3 as [e|[o1|]].
     { inversion H; subst. split; auto. intros ot Ho; discriminate. }
     2:{ inversion H; subst. split; auto. intros ot Ho; inversion Ho; subst.
         destruct (R3 _ eq_refl) as [A3 _]. split; [|intros _ x Hx; discriminate].
-        intros pred bnf Ha. simpl.
+        intros bnf Ha. simpl.
         assert (Ha2 : agrees bnf bl2) by (eapply agrees_extends; [exact (post_ext _ _ _ _ _ _ Po3)|exact Ha]).
         assert (Ha1 : agrees bnf bl1) by (eapply agrees_extends; [exact (post_ext _ _ _ _ _ _ Po2)|exact Ha2]).
-        rewrite (A1 false bnf Ha1), (A2 true bnf Ha2), (A3 false bnf Ha). reflexivity. }
+        rewrite (A1 bnf Ha1), (A2 bnf Ha2), (A3 bnf Ha). reflexivity. }
     destruct (R3 _ eq_refl) as [A3 I3].
     inversion H; subst. split; auto. intros ot Ho; inversion Ho; subst. split.
-    + intros pred bnf Ha. simpl.
+    + intros bnf Ha. simpl.
       assert (Ha2 : agrees bnf bl2) by (eapply agrees_extends; [exact (post_ext _ _ _ _ _ _ Po3)|exact Ha]).
       assert (Ha1 : agrees bnf bl1) by (eapply agrees_extends; [exact (post_ext _ _ _ _ _ _ Po2)|exact Ha2]).
-      rewrite (A1 false bnf Ha1), (A2 true bnf Ha2), (A3 false bnf Ha). reflexivity.
+      rewrite (A1 bnf Ha1), (A2 bnf Ha2), (A3 bnf Ha). reflexivity.
     + intros Hs x Hx; inversion Hx; subst. simpl.
       pose proof (sol_in_incl _ _ _ Hs (post_incl _ _ _ _ _ _ Po1)) as Hs1.
       pose proof (sol_in_incl _ _ _ Hs1 (post_incl _ _ _ _ _ _ Po2)) as Hs2.
@@ -224,29 +224,29 @@ Qed.
 
 
 (* ---- one template quad ---- *)
-Lemma m_quad_ok : forall insert D sol q bl st st' bl' r d0 lo,
-  m_quad insert D sol q bl st = (st', bl', r) -> pre d0 lo bl st ->
+Lemma m_quad_ok : forall kwa insert D sol q bl st st' bl' r d0 lo,
+  m_quad kwa insert D sol q bl st = (st', bl', r) -> pre d0 lo bl st ->
   post d0 lo bl st bl' st' /\
   forall oq, r = IOut oq ->
-    (forall bnf, agrees bnf bl' -> s_quad_gen a_word D sol bnf q = oq) /\
+    (forall bnf, agrees bnf bl' -> s_quad_gen kwa D sol bnf q = oq) /\
     (sol_in sol (i_dict st) -> forall x, oq = Some x -> quad_in x (i_dict st')).
 Proof.
-  intros insert D sol q bl st st' bl' r d0 lo H Hpre. unfold m_quad in H.
-  destruct (m_term insert sol (tq_s q) bl st) as [[st1 bl1] r1] eqn:E1.
-  destruct (m_term_ok _ _ _ _ _ _ _ _ d0 lo E1 Hpre) as [Po1 R1].
+  intros kwa insert D sol q bl st st' bl' r d0 lo H Hpre. unfold m_quad in H.
+  destruct (m_term kwa false insert sol (tq_s q) bl st) as [[st1 bl1] r1] eqn:E1.
+  destruct (m_term_ok _ _ _ _ _ _ _ _ _ _ d0 lo E1 Hpre) as [Po1 R1].
   pose proof (pre_post _ _ _ _ _ _ Hpre Po1) as Pre1.
   destruct r1 as [e|[s|]].
   { inversion H; subst. split; auto. intros oq Ho; discriminate. }
   2:{ inversion H; subst. split; auto. intros oq Ho; inversion Ho; subst.
       destruct (R1 _ eq_refl) as [A1 _]. split; [|intros _ x Hx; discriminate].
-      intros bnf Ha. unfold s_quad_gen. rewrite (A1 false bnf Ha). reflexivity. }
+      intros bnf Ha. unfold s_quad_gen. rewrite (A1 bnf Ha). reflexivity. }
   destruct (R1 _ eq_refl) as [A1 I1].
   destruct ((is_tvar (tq_s q) || is_qt s) && negb (legal_subject D s)) eqn:L1.
   { inversion H; subst. split; auto. intros oq Ho; inversion Ho; subst.
     split; [|intros _ x Hx; discriminate].
-    intros bnf Ha. unfold s_quad_gen. rewrite (A1 false bnf Ha), L1. reflexivity. }
-  destruct (m_term insert sol (tq_p q) bl1 st1) as [[st2 bl2] r2] eqn:E2.
-  destruct (m_term_ok _ _ _ _ _ _ _ _ d0 lo E2 Pre1) as [Po2 R2].
+    intros bnf Ha. unfold s_quad_gen. rewrite (A1 bnf Ha), L1. reflexivity. }
+  destruct (m_term kwa true insert sol (tq_p q) bl1 st1) as [[st2 bl2] r2] eqn:E2.
+  destruct (m_term_ok _ _ _ _ _ _ _ _ _ _ d0 lo E2 Pre1) as [Po2 R2].
   pose proof (pre_post _ _ _ _ _ _ Pre1 Po2) as Pre2.
   pose proof (post_trans _ _ _ _ _ _ _ _ Po1 Po2) as Po12.
   destruct r2 as [e|[p|]].
@@ -254,17 +254,17 @@ Proof.
   2:{ inversion H; subst. split; auto. intros oq Ho; inversion Ho; subst.
       destruct (R2 _ eq_refl) as [A2 _]. split; [|intros _ x Hx; discriminate].
       intros bnf Ha. unfold s_quad_gen.
-      rewrite (A1 false bnf (agrees_extends _ _ _ (post_ext _ _ _ _ _ _ Po2) Ha)), L1.
-      rewrite (A2 true bnf Ha). reflexivity. }
+      rewrite (A1 bnf (agrees_extends _ _ _ (post_ext _ _ _ _ _ _ Po2) Ha)), L1.
+      rewrite (A2 bnf Ha). reflexivity. }
   destruct (R2 _ eq_refl) as [A2 I2].
   destruct (is_tvar (tq_p q) && negb (legal_predicate D p)) eqn:L2.
   { inversion H; subst. split; auto. intros oq Ho; inversion Ho; subst.
     split; [|intros _ x Hx; discriminate].
     intros bnf Ha. unfold s_quad_gen.
-    rewrite (A1 false bnf (agrees_extends _ _ _ (post_ext _ _ _ _ _ _ Po2) Ha)), L1.
-    rewrite (A2 true bnf Ha), L2. reflexivity. }
-  destruct (m_term insert sol (tq_o q) bl2 st2) as [[st3 bl3] r3] eqn:E3.
-  destruct (m_term_ok _ _ _ _ _ _ _ _ d0 lo E3 Pre2) as [Po3 R3].
+    rewrite (A1 bnf (agrees_extends _ _ _ (post_ext _ _ _ _ _ _ Po2) Ha)), L1.
+    rewrite (A2 bnf Ha), L2. reflexivity. }
+  destruct (m_term kwa false insert sol (tq_o q) bl2 st2) as [[st3 bl3] r3] eqn:E3.
+  destruct (m_term_ok _ _ _ _ _ _ _ _ _ _ d0 lo E3 Pre2) as [Po3 R3].
   pose proof (pre_post _ _ _ _ _ _ Pre2 Po3) as Pre3.
   pose proof (post_trans _ _ _ _ _ _ _ _ Po12 Po3) as Po123.
   destruct r3 as [e|[o|]].
@@ -274,11 +274,11 @@ Proof.
       intros bnf Ha. unfold s_quad_gen.
       assert (Ha2 : agrees bnf bl2) by (eapply agrees_extends; [exact (post_ext _ _ _ _ _ _ Po3)|exact Ha]).
       assert (Ha1 : agrees bnf bl1) by (eapply agrees_extends; [exact (post_ext _ _ _ _ _ _ Po2)|exact Ha2]).
-      rewrite (A1 false bnf Ha1), L1, (A2 true bnf Ha2), L2, (A3 false bnf Ha). reflexivity. }
+      rewrite (A1 bnf Ha1), L1, (A2 bnf Ha2), L2, (A3 bnf Ha). reflexivity. }
   destruct (R3 _ eq_refl) as [A3 I3].
   assert (Hspec : forall bl4 bnf, extends bl3 bl4 -> agrees bnf bl4 ->
-                  s_term_gen a_word false sol bnf (tq_s q) = Some s /\ s_term_gen a_word true sol bnf (tq_p q) = Some p /\
-                  s_term_gen a_word false sol bnf (tq_o q) = Some o).
+                  s_term_gen kwa false sol bnf (tq_s q) = Some s /\ s_term_gen kwa true sol bnf (tq_p q) = Some p /\
+                  s_term_gen kwa false sol bnf (tq_o q) = Some o).
   { intros bl4 bnf Hx Ha.
     assert (Ha3 : agrees bnf bl3) by (eapply agrees_extends; eauto).
     assert (Ha2 : agrees bnf bl2) by (eapply agrees_extends; [exact (post_ext _ _ _ _ _ _ Po3)|exact Ha3]).
@@ -336,19 +336,19 @@ Proof.
   intros g Hg. eapply incl_tran; eauto.
 Qed.
 
-Lemma m_solution_ok : forall insert D sol tqs bl st acc st' bl' r d0 lo,
-  m_solution insert D sol tqs bl st acc = (st', bl', r) -> pre d0 lo bl st ->
+Lemma m_solution_ok : forall kwa insert D sol tqs bl st acc st' bl' r d0 lo,
+  m_solution kwa insert D sol tqs bl st acc = (st', bl', r) -> pre d0 lo bl st ->
   post d0 lo bl st bl' st' /\
   forall acc', r = IOut acc' ->
     (forall bnf, agrees bnf bl' ->
-       acc' = fold_left (add_end quad_eqb) (filter_map (s_quad_gen a_word D sol bnf) tqs) acc) /\
+       acc' = fold_left (add_end quad_eqb) (filter_map (s_quad_gen kwa D sol bnf) tqs) acc) /\
     (sol_in sol (i_dict st) -> acc_in acc (i_dict st) -> acc_in acc' (i_dict st')).
 Proof.
-  intros insert D sol tqs; induction tqs as [|q rest IH]; intros bl st acc st' bl' r d0 lo H Hpre; simpl in H.
+  intros kwa insert D sol tqs; induction tqs as [|q rest IH]; intros bl st acc st' bl' r d0 lo H Hpre; simpl in H.
   - inversion H; subst. split; [apply post_refl; auto|].
     intros acc' Ho; inversion Ho; subst. split; auto.
-  - destruct (m_quad insert D sol q bl st) as [[st1 bl1] r1] eqn:E1.
-    destruct (m_quad_ok _ _ _ _ _ _ _ _ _ d0 lo E1 Hpre) as [Po1 R1].
+  - destruct (m_quad kwa insert D sol q bl st) as [[st1 bl1] r1] eqn:E1.
+    destruct (m_quad_ok _ _ _ _ _ _ _ _ _ _ d0 lo E1 Hpre) as [Po1 R1].
     pose proof (pre_post _ _ _ _ _ _ Hpre Po1) as Pre1.
     destruct r1 as [e|[x|]].
     + inversion H; subst. split; auto. intros acc' Ho; discriminate.
@@ -382,26 +382,26 @@ Fixpoint ranges_ok (d0 : list term) (lo : N) (tbl : list blmap) (hi : N) : Prop 
 Definition tbl_agrees (bn : nat -> N -> term) (tbl : list blmap) : Prop :=
   forall i bl, nth_error tbl i = Some bl -> agrees (bn i) bl.
 
-Lemma m_templates_ok : forall insert D tqs sols st acc st' tbl r d0,
-  m_templates insert D sols tqs st acc = (st', tbl, r) -> incl d0 (i_dict st) ->
+Lemma m_templates_ok : forall kwa insert D tqs sols st acc st' tbl r d0,
+  m_templates kwa insert D sols tqs st acc = (st', tbl, r) -> incl d0 (i_dict st) ->
   incl (i_dict st) (i_dict st') /\ i_next st <= i_next st' /\ ranges_ok d0 (i_next st) tbl (i_next st') /\
   forall acc', r = IOut acc' ->
     length tbl = length sols /\
-    (forall bn, tbl_agrees bn tbl -> acc' = fold_left (add_end quad_eqb) (s_all_gen a_word D sols bn tqs) acc) /\
+    (forall bn, tbl_agrees bn tbl -> acc' = fold_left (add_end quad_eqb) (s_all_gen kwa D sols bn tqs) acc) /\
     ((forall sol, In sol sols -> sol_in sol (i_dict st)) -> acc_in acc (i_dict st) -> acc_in acc' (i_dict st')).
 Proof.
-  intros insert D tqs sols; induction sols as [|sol rest IH]; intros st acc st' tbl r d0 H Hd; simpl in H.
+  intros kwa insert D tqs sols; induction sols as [|sol rest IH]; intros st acc st' tbl r d0 H Hd; simpl in H.
   - inversion H; subst. split; [apply incl_refl|]. split; [lia|]. split; [simpl; lia|].
     intros acc' Ho; inversion Ho; subst. split; [reflexivity|]. split; [intros; reflexivity | intros; assumption].
-  - destruct (m_solution insert D sol tqs [] st acc) as [[st1 bl1] r1] eqn:E1.
+  - destruct (m_solution kwa insert D sol tqs [] st acc) as [[st1 bl1] r1] eqn:E1.
     assert (Hpre : pre d0 (i_next st) [] st).
     { repeat split; auto; try lia; intros l t Hl; discriminate. }
-    destruct (m_solution_ok _ _ _ _ _ _ _ _ _ _ d0 (i_next st) E1 Hpre) as [[P1 [P2 [P3 [P4 P5]]]] R1].
+    destruct (m_solution_ok _ _ _ _ _ _ _ _ _ _ _ d0 (i_next st) E1 Hpre) as [[P1 [P2 [P3 [P4 P5]]]] R1].
     destruct r1 as [e|acc1].
     + inversion H; subst. split; [auto|]. split; [auto|]. split.
       * simpl. exists (i_next st'). split; [auto|]. split; [auto|lia].
       * intros acc' Ho; discriminate.
-    + destruct (m_templates insert D rest tqs st1 acc1) as [[st2 tbl2] r2] eqn:E2.
+    + destruct (m_templates kwa insert D rest tqs st1 acc1) as [[st2 tbl2] r2] eqn:E2.
       inversion H; subst.
       assert (Hd1 : incl d0 (i_dict st1)) by (eapply incl_tran; eauto).
       destruct (IH _ _ _ _ _ d0 E2 Hd1) as [Q1 [Q2 [Q3 R2]]].
